@@ -348,6 +348,17 @@ def r_slots(ctx) -> None:
             # f";{X}" is the concatenation ";" + X (sa/inline.py reads string concatenations as f-strings)
             j = ast.BinOp(left=j.values[0], op=ast.Add(), right=j.values[1].value)
         detail = f"exclusion tail is `{show(j)[:80]}`"
+        if isinstance(j, ast.Call) and call_fname(j) == "join" and isinstance(j.func.value, ast.Constant) and j.func.value.value == "" and len(j.args) == 1 and is_sym(j.args[0], "comp") \
+                and len(j.args[0].args) >= 3 and is_sym(j.args[0].args[2], "gen"):
+            # "".join(";" + str(n) for n in sorted(numbers)): every number is preceded by its separator
+            elt, seq = j.args[0].args[1], j.args[0].args[2].args[0]
+            pieces = template_parts(elt) if isinstance(elt, (ast.JoinedStr, ast.Constant)) else None
+            if pieces and len(pieces) == 2 and pieces[0] == ";" and isinstance(pieces[1], Hole) and is_sym(pieces[1].expr, "elem") and (pieces[1].spec in (None, "")):
+                if isinstance(seq, ast.Call) and call_fname(seq) == "sorted" and not seq.keywords:
+                    ok = True
+                    detail = f"exclusions come from `{show(seq.args[0])[:50]}`"
+                else:
+                    detail = f"the exclusion list is `{show(seq)[:70]}`: it must be sorted as numbers before being converted to text (a text sort orders 10 before 9)"
         if isinstance(j, ast.BinOp) and isinstance(j.op, ast.Add) and isinstance(j.left, ast.Constant) and j.left.value == ";" and isinstance(j.right, ast.Call) and call_fname(j.right) == "join" \
                 and isinstance(j.right.func.value, ast.Constant) and j.right.func.value.value == ";":
             inner = j.right.args[0]
